@@ -28,7 +28,7 @@ RULE = (
     "Hypothesis-generated lists of message dicts (recursive JSON-native values: arbitrary Unicode text incl. astral/"
     "control/U+2028, ints in [-2^63, 2^64-1] with boundaries, finite floats incl. -0.0/subnormals/1e308, NaN/Inf, "
     "nesting chains to depth 200, texts of 4 KiB..300 KB around buffer-size boundaries, documented rich types Path/date/"
-    "time/datetime/set/complex/tuple, custom json_default extensions incl. one that overrides eliot's encoding of set/"
+    "time/datetime/set/complex/tuple, custom json_default extensions incl. one that does not fall back on eliot.json.json_default (with the types the encoder writes by itself) and one that overrides eliot's encoding of set/"
     "complex/Path; consecutive messages that are equal in Python but different JSON (0.0/-0.0, 1/True/1.0) and the same "
     "dict object offered again after an in-place change) x file flavour (real temp file 'ab', 'a' utf-8, unbuffered 'wb', BytesIO, StringIO, TextIOWrapper, codecs.open / codecs.getwriter text files "
     "whose forwarded .mode says 'wb', SpooledTemporaryFile binary/text, a write-through TextIOWrapper over a buffered binary file, a line-buffered text file; optionally "
@@ -106,6 +106,13 @@ def custom_default(o):
     if isinstance(o, V.Custom):
         return {"custom": o.payload}
     return eliot_json_default(o)
+
+
+def strict_default(o):
+    """A caller's json_default that knows its own type only and, as the json/orjson contract says, raises TypeError for the rest."""
+    if isinstance(o, V.Custom):
+        return {"custom": o.payload}
+    raise TypeError("Object of type %s is not JSON serializable" % type(o).__name__)
 
 
 def override_default(o):
@@ -243,6 +250,8 @@ def _check(case):
         kwargs["json_default"] = custom_default
     elif default == "override":
         kwargs["json_default"] = override_default
+    elif default == "strict":
+        kwargs["json_default"] = strict_default
     with tempfile.TemporaryDirectory(prefix="c10-") as tmpdir:
         f, path = _open(kind, tmpdir)
         try:
@@ -457,8 +466,8 @@ def with_twins(msgs, picks):
     return out
 
 
-def message_specs(custom):
-    return st.dictionaries(V.keys(), st.one_of(V.rich_tree(8, custom=custom), V.rich_tree(8, custom=custom), V.bigtexts()), max_size=5)
+def message_specs(custom, native_only=False):
+    return st.dictionaries(V.keys(), st.one_of(V.rich_tree(8, custom=custom, native_only=native_only), V.rich_tree(8, custom=custom, native_only=native_only), V.bigtexts()), max_size=5)
 
 
 def strategy():
@@ -477,6 +486,12 @@ def strategy():
             st.sampled_from(FILE_KINDS),
             st.sampled_from(["custom", "override"]),
             st.lists(message_specs(True), min_size=1, max_size=4),
+        ),
+        # a json_default that does not fall back on eliot's: dates, times and tuples are written by the encoder itself
+        st.builds(
+            lambda f, msgs: {"msgs": msgs, "file": f, "default": "strict"},
+            st.sampled_from(FILE_KINDS),
+            st.lists(message_specs(True, native_only=True), min_size=1, max_size=4),
         ),
     )
 
@@ -505,4 +520,111 @@ def _known_f21(facet, case, violation):
 
 KNOWN = {"F8-aware-time": _known_f8, "F9-time-fraction": _known_f9, "F21-nesting-limit": _known_f21}
 
-FACETS = [Facet("file", strategy, check, classify, quick=2400, thorough=300000)]
+# ------------------------------------------------- messages offered from inside a write
+
+
+class _Interrupting(object):
+    """A file object during one of whose write()/flush() calls a signal handler of the program runs and logs something
+    itself (through the same destination, or through another file destination of the process)."""
+
+    def __init__(self, real, when, handler):
+        self._real = real
+        self._when = when  # (call name, ordinal, before?)
+        self._handler = handler
+        self._seen = {"write": 0, "flush": 0}
+        self.writes = []
+
+    def _maybe(self, name, before):
+        if self._handler is not None and self._when == [name, self._seen[name], before]:
+            handler, self._handler = self._handler, None
+            handler()
+
+    def write(self, data):
+        self._maybe("write", True)
+        self.writes.append(data)
+        r = self._real.write(data)
+        self._maybe("write", False)
+        self._seen["write"] += 1
+        return r
+
+    def flush(self):
+        self._maybe("flush", True)
+        r = self._real.flush()
+        self._maybe("flush", False)
+        self._seen["flush"] += 1
+        return r
+
+
+def check_reentrant(case):
+    binary = case["binary"]
+    real = io.BytesIO() if binary else io.StringIO(newline="\n")
+    other_real = io.BytesIO()
+    n = case["n"]
+    holder = {}
+
+    def handler():
+        holder["dest"]({"signal": "handled", "n": -1})
+
+    f = _Interrupting(real, None, handler)
+    dest = FileDestination(file=f)
+    other = FileDestination(file=other_real)
+    holder["dest"] = dest if case["same"] else other
+    del f.writes[:]
+    f._seen = {"write": 0, "flush": 0}
+    f._when = [case["call"], case["at"] % n, bool(case["before"])]
+    for i in range(n):
+        try:
+            dest({"i": i, "text": "line %d" % i})
+        except Exception as e:
+            raise Violation("raised", "FileDestination raised %r for message %d while a signal handler logged during its %s" % (e, i, case["call"]))
+    require(f._handler is None, "harness", "the interruption point was never reached")
+
+    def lines_of(stream):
+        data = stream.getvalue()
+        if isinstance(data, str):
+            data = data.encode("utf-8")
+        require(data.endswith(b"\n") or not data, "partial-line", lambda: "file does not end with a newline: %r" % data[-40:])
+        out = []
+        for raw in data.split(b"\n")[:-1]:
+            try:
+                out.append(json.loads(raw))
+            except ValueError:
+                raise Violation("torn-line", "not a JSON line: %r" % raw[:120])
+        return out
+
+    got = lines_of(real)
+    want = [{"i": i, "text": "line %d" % i} for i in range(n)]
+    extra = {"signal": "handled", "n": -1}
+    if case["same"]:
+        require(sorted(map(canon, got)) == sorted(map(canon, want + [extra])), "lines", lambda: "file has %r, offered %r" % (got, want + [extra]))
+        require([g for g in got if "i" in g] == want, "order", lambda: "order of the main program's lines changed: %r" % (got,))
+    else:
+        require(got == want, "lines", lambda: "file has %r, offered %r" % (got, want))
+        require(lines_of(other_real) == [extra], "lines", lambda: "the other destination's file has %r" % (other_real.getvalue(),))
+    for w in f.writes:
+        b = w.encode("utf-8") if isinstance(w, str) else bytes(w)
+        require(b.endswith(b"\n") and b.count(b"\n") == 1, "write-not-one-line", lambda: "a write() call handed over %r" % b[:120])
+    return {"n": n}
+
+
+def classify_reentrant(case, info):
+    return True, ["binary" if case["binary"] else "text", "same-destination" if case["same"] else "another-file-destination", "during-%s:%s" % (case["call"], "before" if case["before"] else "after")]
+
+
+def reentrant_runner(mod, facet, tier, seed, shard, nshards, stats):
+    from ..core import enumerate_cases
+
+    cases = []
+    for binary in (True, False):
+        for same in (True, False):
+            for call in ("write", "flush"):
+                for before in (True, False):
+                    for n, at in ((1, 0), (3, 0), (3, 1), (3, 2)):
+                        cases.append({"binary": binary, "same": same, "call": call, "before": before, "n": n, "at": at})
+    enumerate_cases(mod, facet, cases, shard, nshards, stats, exhaustive=True)
+
+
+FACETS = [
+    Facet("file", strategy, check, classify, quick=2400, thorough=300000),
+    Facet("reentrant", None, check_reentrant, classify_reentrant, quick=1, thorough=1, quick_shards=2, thorough_shards=2, runner=reentrant_runner),
+]
